@@ -34,9 +34,42 @@ type eraseCase struct {
 	Ins   []insRec `json:"ins"`
 	Ifl   []string `json:"ifl"`
 	Amb   bool     `json:"amb"`
+	// family "nest": labels of the speculation kinds (outer = context, inner = inside the payload), pairs
+	// (slot label, type-form label) of type-level nesting, labels of nested type forms
+	Olab []string   `json:"olab,omitempty"`
+	Ilab []string   `json:"ilab,omitempty"`
+	Tlab [][]string `json:"tlab,omitempty"`
+	Nlab []string   `json:"nlab,omitempty"`
 	// header record
-	AllProds map[string][]string   `json:"allprods"`
-	Kinds    map[string][][]string `json:"kinds"`
+	AllProds  map[string][]string   `json:"allprods"`
+	Kinds     map[string][][]string `json:"kinds"`
+	ReqPairs  [][]string            `json:"reqpairs,omitempty"`
+	ReqType   [][]string            `json:"reqtype,omitempty"`
+	ReqNested []string              `json:"reqnested,omitempty"`
+}
+
+// ctxLabel: the context productions of a variant of the family "nest" (a structural identification of the
+// speculative context, independent of the payload and of the fillers)
+func (c *eraseCase) ctxLabel() string {
+	var l []string
+	for _, p := range c.Prods {
+		if strings.HasPrefix(p, "c-") || strings.HasPrefix(p, "tb-") {
+			l = append(l, p)
+		}
+	}
+	sort.Strings(l)
+	return strings.Join(l, "+")
+}
+
+// pairLabels: the ordered pairs (outer speculation, inner speculation) a variant inhabits
+func (c *eraseCase) pairLabels() []string {
+	var out []string
+	for _, o := range c.Olab {
+		for _, i := range c.Ilab {
+			out = append(out, o[2:]+">"+i[2:])
+		}
+	}
+	return out
 }
 
 func has(l []string, s string) bool {
@@ -450,8 +483,10 @@ func evalErase(r *core.Run, cases []*eraseCase, header *eraseCase, only *eraseRe
 		pairs, tsjs, bothReject, typedOutputs, skelTsDiff int64
 		perFam                                            map[string]int
 		perKind                                           map[string]int
+		pairs2, tpairs, nested                            map[string]int
 	}
 	st.perFam, st.perKind = map[string]int{}, map[string]int{}
+	st.pairs2, st.tpairs, st.nested = map[string]int{}, map[string]int{}, map[string]int{}
 	var smu sync.Mutex
 
 	core.Parallel(len(cases), 8, func(i int) {
@@ -462,7 +497,7 @@ func evalErase(r *core.Run, cases []*eraseCase, header *eraseCase, only *eraseRe
 			return
 		}
 		id := c.Fam + ":" + strings.Join(c.Toks, " ") + " | " + c.insLabel()
-		nontrivial := c.Amb || (len(c.Ins) == 0 && has(c.Pfl, "amb") && c.Fam == "cmp")
+		nontrivial := c.Amb || (len(c.Ins) == 0 && has(c.Pfl, "amb") && (c.Fam == "cmp" || c.Fam == "nest"))
 		r.Case(id, nontrivial)
 		loaders, jsOf := loadersOf(c)
 		mask := c.typeMask()
@@ -548,7 +583,7 @@ func evalErase(r *core.Run, cases []*eraseCase, header *eraseCase, only *eraseRe
 				default:
 					jsOut, jsErr := sk.out(r, jsOf[loader], cf)
 					local.tsjs++
-					key := map[string]interface{}{"part": "erase", "check": "ts-vs-js", "fam": c.Fam, "skeleton": sk.text, "config": cf.Name, "loader": loader, "error": skErr}
+					key := map[string]interface{}{"part": "erase", "check": "ts-vs-js", "fam": c.Fam, "skeleton": sk.text, "config": cf.Name, "loader": loader, "error": skErr, "ctx": c.ctxLabel()}
 					det := map[string]interface{}{"case": c, "config": cf, "loader": loader, "rendering": modeSpaced, "input": sk.text, "ts_output": skOut, "ts_error": skErr, "js_output": jsOut, "js_error": jsErr}
 					switch {
 					case jsErr != "" && skErr != "":
@@ -572,7 +607,7 @@ func evalErase(r *core.Run, cases []*eraseCase, header *eraseCase, only *eraseRe
 				out, errText = cf.transform(text, loader)
 			}
 			local.pairs++
-			key := map[string]interface{}{"part": "erase", "check": "typed-vs-skeleton", "fam": c.Fam, "skeleton": sk.text, "ins": c.insLabel(), "config": cf.Name, "loader": loader, "rendering": mode, "error": errText}
+			key := map[string]interface{}{"part": "erase", "check": "typed-vs-skeleton", "fam": c.Fam, "skeleton": sk.text, "ins": c.insLabel(), "config": cf.Name, "loader": loader, "rendering": mode, "error": errText, "ctx": c.ctxLabel()}
 			det := map[string]interface{}{"case": c, "skeleton_case": sk.c, "config": cf, "loader": loader, "rendering": mode, "typed": text, "skeleton": sk.text,
 				"typed_output": out, "typed_error": errText, "skeleton_output": skOut, "skeleton_error": skErr}
 			switch {
@@ -602,6 +637,19 @@ func evalErase(r *core.Run, cases []*eraseCase, header *eraseCase, only *eraseRe
 		}
 		for _, p := range c.Prods {
 			usedProds[c.Fam+":"+p] = true
+		}
+		if len(loaders) > 0 {
+			for _, p := range c.pairLabels() {
+				st.pairs2[p]++
+			}
+			for _, t := range c.Tlab {
+				if len(t) == 2 {
+					st.tpairs[t[0][2:]+">"+t[1][2:]]++
+				}
+			}
+			for _, n := range c.Nlab {
+				st.nested[n[2:]]++
+			}
 		}
 		st.Unlock()
 		if i%(len(cases)/5+1) == 3 && len(c.Ins) > 0 {
@@ -648,6 +696,25 @@ func evalErase(r *core.Run, cases []*eraseCase, header *eraseCase, only *eraseRe
 			}
 		}
 	}
+	// nested speculation: every required ordered pair (outer kind, inner kind) was evaluated
+	for _, p := range header.ReqPairs {
+		if len(p) == 2 && st.pairs2[p[0][2:]+">"+p[1][2:]] == 0 {
+			missing = append(missing, "pair "+p[0][2:]+">"+p[1][2:])
+		}
+	}
+	for _, p := range header.ReqType {
+		if len(p) == 2 && st.tpairs[p[0][2:]+">"+p[1][2:]] == 0 {
+			missing = append(missing, "type-level pair "+p[0][2:]+">"+p[1][2:])
+		}
+	}
+	for _, n := range header.ReqNested {
+		if st.nested[n[2:]] == 0 {
+			missing = append(missing, "nested type form "+n[2:])
+		}
+	}
+	r.Set("erase_nested_speculation_pairs", st.pairs2)
+	r.Set("erase_type_level_speculation_pairs", st.tpairs)
+	r.Set("erase_nested_type_forms", st.nested)
 	sort.Strings(missing)
 	r.Set("erase_productions", total)
 	r.Set("erase_fillers_in_alphabet", nf)
